@@ -86,12 +86,17 @@ FIXED = [
      'explain(): rise/fall explained their operand with one polarity only (fall(always[1,1](a >= 2)) reported nothing)'),
     ('F15f', ['C20'], 'fix: explanations of universally quantified cases looked at the first interval only',
      'explain(): satisfied always/historically and violated eventually/once propagated only the first of several disjoint intervals'),
+    ('F22', ['C06'], 'fix: xor nodes did not propagate the input/output variables',
+     "IA-STL: Xor nodes did not collect in_vars/out_vars, so a predicate over an operand containing xor was treated as insensitive"),
 ]
 
 OPEN = [
     ('F08', 'C03', 'delayed-equals-offline', 'findings/F08-C03.json', 'memory-past-above-delayed',
      'pastified memoryful past operator (rise fall prev s_prev once historically since) above a sub-formula with horizon > 0 '
      'sees the warm-up outputs of the delayed operand, e.g. rise(eventually[0,1] b) at i=1 returns min(-b0, max(b0,b1)) instead of max(b0,b1)'),
+    ('F08b', 'C03', 'update-raised', 'findings/F08b-C03.json', 'partial-function-over-delayed',
+     'same root cause as F08: log(x, base) over operands with different horizons - the shallower operand is delayed by once[d,d], is -inf '
+     'during the first d updates and update() raises ValueError (math domain error), e.g. log(abs(eventually[0,1] a)+1, abs(a)+2)'),
     ('F14a', 'C04', 'starts-at-domain-start', 'findings/F14a-C04.json', 'bounded-op-nonzero-start',
      'dense offline bounded operators anchor their output at time 0 (past) or at start-minus-bound (future) instead of the start of the '
      'input domain when a signal does not start at 0; pinned by test_once_bounded_3 / test_always_bounded (G[0,1] a on [[2,2]] must give '
